@@ -9,6 +9,7 @@ deriving DecidableEq, Repr, Inhabited
 
 inductive Ev
   | started (t : Nat) (a : ArgD) | sawCancel (t : Nat) | returned (t : Nat) | raised (t : Nat)
+  | resumed (t : Nat)                 -- the worker caught a `CancelledError` and went on (awaits a fresh future)
   | cancelCb (t r c e : Nat) (k : Option Err) | cancelCbDone (t : Nat) | cancelCbRaised (t : Nat) | cancelCbKilled (t : Nat)
   | endCb (t r c e : Nat) (k : Option Err) | endCbDone (t : Nat) | endCbRaised (t : Nat) | endCbKilled (t : Nat)
   | pull (m k : Nat)
@@ -415,6 +416,11 @@ def stepCreated (p : Pool) (t : Nat) (tk : PTask) : Pool :=
 
 /-- the worker sees a `CancelledError` at its suspension point -/
 def workerCancelled (p : Pool) (t : Nat) (tk : PTask) : Pool :=
+  if (p.reqOf tk).wspec.resume && !tk.sawCancel then
+    -- the worker catches this first `CancelledError` and awaits a fresh future: for the pool the task is running as
+    -- before (its wrapper has seen nothing)
+    ((p.logEv (.resumed t)).modTask t fun k => { k with sawCancel := true }).suspendTask t .inWorker
+  else
   let p := (p.logEv (.sawCancel t)).modTask t fun k => { k with sawCancel := true, phase := .wrapUp, nSaw := k.nSaw + 1 }
   if (p.reqOf tk).wspec.swallow then p.afterWorker t none else p.taskCancellation t tk
 
